@@ -64,14 +64,15 @@ theorem enc16 (v : UInt16) (buf : Array UInt8) (off : Nat) (n : UInt64) (mt : Na
   have hb2 : v.toUInt8 = UInt8.ofNat (v.toNat / 256 ^ 0 % 256) := by u8eq
   unfold _cbor_encode_uint16 encRes
   simp only [hb0, hb1, hb2]
-  by_cases h : n < 3
-  · have h' := UInt64.lt_iff_toNat_lt.mp h
+  by_cases h : n ≤ 2
+  · have h' := UInt64.le_iff_toNat_le.mp h
     simp at h'
     simp [h, Spec.headBytes, Spec.beBytes, Spec.argBytes]
     omega
-  · have h' : ¬ n.toNat < 3 := fun hh => h (UInt64.lt_iff_toNat_lt.mpr hh)
+  · have h' : ¬ n.toNat ≤ 2 := fun hh => h (UInt64.le_iff_toNat_le.mpr hh)
     simp at h'
     simp [h, Spec.headBytes, Spec.beBytes, Spec.argBytes, writeList, h']
+    omega
 
 theorem enc32 (v : UInt32) (buf : Array UInt8) (off : Nat) (n : UInt64) (mt : Nat) (hmt : mt < 8) :
     _cbor_encode_uint32 v buf off n (UInt8.ofNat (mt * 32)) = encRes buf off n (Spec.headBytes mt 26 v.toNat) := by
@@ -83,14 +84,15 @@ theorem enc32 (v : UInt32) (buf : Array UInt8) (off : Nat) (n : UInt64) (mt : Na
   have hb4 : v.toUInt8 = UInt8.ofNat (v.toNat / 256 ^ 0 % 256) := by u8eq
   unfold _cbor_encode_uint32 encRes
   simp only [hb0, hb1, hb2, hb3, hb4]
-  by_cases h : n < 5
-  · have h' := UInt64.lt_iff_toNat_lt.mp h
+  by_cases h : n ≤ 4
+  · have h' := UInt64.le_iff_toNat_le.mp h
     simp at h'
     simp [h, Spec.headBytes, Spec.beBytes, Spec.argBytes]
     omega
-  · have h' : ¬ n.toNat < 5 := fun hh => h (UInt64.lt_iff_toNat_lt.mpr hh)
+  · have h' : ¬ n.toNat ≤ 4 := fun hh => h (UInt64.le_iff_toNat_le.mpr hh)
     simp at h'
     simp [h, Spec.headBytes, Spec.beBytes, Spec.argBytes, writeList, h']
+    omega
 
 theorem enc64 (v : UInt64) (buf : Array UInt8) (off : Nat) (n : UInt64) (mt : Nat) (hmt : mt < 8) :
     _cbor_encode_uint64 v buf off n (UInt8.ofNat (mt * 32)) = encRes buf off n (Spec.headBytes mt 27 v.toNat) := by
@@ -198,7 +200,7 @@ theorem enc16_ok (v : UInt16) (buf : Array UInt8) (off : Nat) (n : UInt64) (o : 
   split
   · rfl
   · rename_i hs
-    have hs' : ¬ n.toNat < 3 := fun hh => hs (by simpa using UInt64.lt_iff_toNat_lt.mpr (by simpa using hh))
+    have hs' : ¬ n.toNat ≤ 2 := fun hh => hs (by simpa using UInt64.le_iff_toNat_le.mpr (by simpa using hh))
     simp [C.fitsS]; omega
 
 theorem enc32_ok (v : UInt32) (buf : Array UInt8) (off : Nat) (n : UInt64) (o : UInt8) (h : off + n.toNat ≤ buf.size) :
@@ -208,7 +210,7 @@ theorem enc32_ok (v : UInt32) (buf : Array UInt8) (off : Nat) (n : UInt64) (o : 
   split
   · rfl
   · rename_i hs
-    have hs' : ¬ n.toNat < 5 := fun hh => hs (by simpa using UInt64.lt_iff_toNat_lt.mpr (by simpa using hh))
+    have hs' : ¬ n.toNat ≤ 4 := fun hh => hs (by simpa using UInt64.le_iff_toNat_le.mpr (by simpa using hh))
     simp [C.fitsS]; omega
 
 theorem enc64_ok (v : UInt64) (buf : Array UInt8) (off : Nat) (n : UInt64) (o : UInt8) (h : off + n.toNat ≤ buf.size) :
